@@ -28,6 +28,17 @@ PROPS = {
             "the equation query = spec for every TablesInv state is validated by the correspondence check (model line and specification line per query); the Lean file proves the window law, the filter predicates, exactness of the prefix scan bounds and the selector's no-invention law",
         ],
     },
+    "C06": {
+        "lean_modules": ["DocsModel.Props.C06"],
+        "trusted_base": COMMON_TRUST + [
+            "redb's commit is atomic and a reopened database shows exactly the last committed transaction (redb's recovery is trusted, not modelled); the model's `durable` component is that committed image",
+            "hook H5 (Store::verif_access) counts the tables()/modify() accesses and lets the harness decide at which access the open write transaction counts as older than MAX_COMMIT_DELAY; hook H1 supplies the clock",
+            "a crash is taken as a byte copy of the database file made while the store is still open (what the file system holds at that instant); torn sector writes below redb's own checksummed commit protocol are not exercised",
+        ],
+        "assumptions": [
+            "operations are the store-level ones listed in Txn.Op (remote insert incl. prefix pruning, import, remove, peer registration, policy, flush, reads through tables()/snapshot()/snapshot_owned()); each is modelled as its sequence of store accesses, validated access-for-access by the correspondence check (access counter compared)",
+        ],
+    },
     "C07": {
         "lean_modules": ["DocsModel.Props.C07"],
         "trusted_base": COMMON_TRUST + ["redb tables are modelled as sorted lists whose range() is the in-order filter by the bounds (element-wise tuple comparison, lexicographic byte strings); redb itself is not verified",],
